@@ -67,6 +67,16 @@ def center_stubs():
 
 
 def check(ctx):
+    # positional parameters keep their documented positions (a reordering survives every keyword call)
+    from ..sigrules import signatures as _signatures
+
+    _signatures(ctx, "R-SIG", classes=('skmatter.decomposition.KernelPCovR',))
+    from ..flagrules import class_flag_equivalence as _cfe
+    from ..harness import arr as _arr, integer as _integer, scalar as _scalar
+
+    _c = ctx.P.cls("skmatter.decomposition.KernelPCovR")
+    for _flag in ("center", "fit_inverse_transform"):
+        _cfe(ctx, ctx.normalizer(), "R-FLAG", _c, _flag, lambda: {"mixing": _scalar("alpha", 0, 1, True, True), "n_components": _integer("K"), "svd_solver": "full", "center": True, "fit_inverse_transform": True}, [("fit", lambda: (_arr("X", "N", "M"), _arr("Y", "N", "P")), lambda: {}), ("transform", lambda: (_arr("Xv", "V", "M"),), lambda: {}), ("predict", lambda: (_arr("Xv", "V", "M"),), lambda: {}), ("score", lambda: (_arr("Xv", "V", "M"), _arr("Yv", "V", "P")), lambda: {})], ctx.site(_c.methods["fit"]), interp_kw={"order": [("K", "<=", "N")], "assume": protocols.assume_default})
     P = ctx.P
     N = ctx.normalizer()
     cls = P.cls(KP)
